@@ -6,6 +6,7 @@ ASAN_SEGV = re.compile(r'==\d+==ERROR: AddressSanitizer: (SEGV|stack-overflow|BU
 FRAME = re.compile(r'^\s*#(\d+) 0x[0-9a-f]+ in (\S+) (\S+?)(?::\d+)?(?::\d+)?$')
 FRAME2 = re.compile(r'^\s*#(\d+) 0x[0-9a-f]+ in (\S+)')
 UBSAN = re.compile(r'(\S+?):(\d+):(?:(\d+):)? runtime error: (.*)$')
+TSAN_FRAME = re.compile(r'^\s*#(\d+) (\S+) (\S+?)(?::\d+)?(?::\d+)? \(')
 TSAN_HEAD = re.compile(r'WARNING: ThreadSanitizer: ([^\(]+?) \(pid')
 
 REPO_MARKERS = ('/w2c2/', '/wasi/', '/futex/')
@@ -89,7 +90,7 @@ def parse_tsan(text, repo_hint=None):
                 cur = []
                 stacks.append(cur)
                 continue
-            fm = FRAME.match(l) or FRAME2.match(l)
+            fm = FRAME.match(l) or TSAN_FRAME.match(l) or FRAME2.match(l)
             if fm and cur is not None:
                 cur.append((fm.group(2), fm.group(3) if fm.lastindex and fm.lastindex >= 3 else ''))
         acc = [s for s in stacks[:2] if s]
